@@ -45,6 +45,7 @@ type Step struct {
 	ID     *int              `json:"id,omitempty"`
 	Solo   bool              `json:"solo,omitempty"`
 	Settle bool              `json:"settle,omitempty"`
+	Meta   string            `json:"meta,omitempty"`
 }
 
 // Do performs one step, waits for the system to block, and logs what it
@@ -149,7 +150,7 @@ func (w *World) do(st Step) bool {
 		if out == "" {
 			out = "ok"
 		}
-		return w.sim.reply(f[st.Pick%len(f)], out, st.Arg)
+		return w.sim.reply(f[st.Pick%len(f)], out, st.Arg, st.Meta)
 	case "event":
 		v := noVal
 		if st.Val != nil {
